@@ -315,6 +315,9 @@ def gen(tier, seed):
             add("nq_%s_%d" % (tag, bc), "c15-neighbor-query", "neighbor_query(%d, %d, %d, %d, i)" % (w, h, d, bc), ["pre: 0 <= i < %d" % n],
                 "get_neighbors, as a set, equals the specification relation (%dx%dx%d, boundary combination %d)" % (w, h, d, bc), "i: int", timeout=180,
                 viol="get_neighbors disagrees with the neighbour relation between distinct cells")
+    add("abi_boundary", "c15-abi-boundary", "abi_boundary(w, h, d, bc)", ["pre: 1 <= w <= 2 and 1 <= h <= 2 and 1 <= d <= 2 and 0 <= bc <= 7"],
+        "LibRDEngine hands the native engine the grid's sizes in the order (w, h, d) and each axis' OWN boundary condition (all 8 combinations, sizes 1..2 per axis, deterministic and stochastic engines)",
+        "w: int, h: int, d: int, bc: int", viol="the boundary condition or size of one axis reaches the native engine under another axis")
     return "\n".join(L), conds
 
 
